@@ -17,6 +17,8 @@ def run(ctx, keep, rule):
     gens = [("ModfileSyntaxGen", "ModfileSyntaxGen_items_r4" if q else "ModfileSyntaxGen_items_r5", 20000, "modsyntax"),
             ("ModfileSyntaxGen", "ModfileSyntaxGen_items_f3" if q else "ModfileSyntaxGen_items_f4", 20000, "modsyntax"),
             ("ModfileSyntaxGen", "ModfileSyntaxGen_cover2" if q else "ModfileSyntaxGen_cover", 50000, "modsyntax"),
+            # directive layer: every verb x every sequence of up to 3/4 words, as a line, as a one-line block, after a module line
+            ("ModfileDirectiveGen", "ModfileDirectiveGen_3" if q else "ModfileDirectiveGen_4", 50000, "modsyntax"),
             ("ModfileGen", "ModfileGen_mod_wf", 400, "modsyntax"),
             ("ModfileGen", "ModfileGen_work_wf", 200, "modsyntax")]
     for module, cfg, floor, world in gens:
